@@ -827,6 +827,11 @@ func runPool(c *core.Ctx) []core.Obligation {
 		if strings.HasPrefix(shortName(fn), "proto.") {
 			props = []string{"C09", "C03", "C12"}
 		}
+		if n := shortName(fn); n == "json.Marshal" || n == "json.MarshalIndent" {
+			// the bytes returned are what the caller compares with encoding/json's: memory that
+			// the pool hands out again is overwritten by the next Marshal
+			props = []string{"C09", "C10", "C01"}
+		}
 		// derived-from-x within fn
 		derivedFrom := func(x ssa.Value) map[ssa.Value]bool {
 			d := map[ssa.Value]bool{x: true}
